@@ -146,6 +146,44 @@ theorem C10_implies {tbl : List α} (h : WF tbl) (a b : Nat) (hb : b < 2 ^ tbl.l
     obtain ⟨j, hj, ha⟩ := (mem_decompose _ h.1 h.2 _).mp hm
     rw [hidx] at hj; cases hj; exact ha
 
+/-- **None invented, none repeated** — for EVERY value (also one that is no union of basic sets): the answer of
+    `decompose` lists names of the basis only, in table order, each at most once. -/
+theorem C10_decompose_exact {tbl : List α} (h : WF tbl) (x : Nat) :
+    (decompose tbl x).Sublist tbl ∧ (decompose tbl x).Nodup :=
+  ⟨decompose_sublist tbl x, (decompose_sublist tbl x).nodup h.1⟩
+
+/-- The empty set decomposes to no name at all. -/
+theorem C10_empty {tbl : List α} (h : WF tbl) : decompose tbl 0 = [] := by
+  have := decompose_eq_filter (tbl := tbl) 0 h.1 (fun _ => false) (by
+    intro t _
+    simp only [mem_decompose _ h.1 h.2, Nat.zero_testBit]
+    constructor
+    · rintro ⟨_, _, hb⟩; cases hb
+    · intro hb; cases hb)
+  rw [this]; exact List.filter_eq_nil_iff.mpr (by intro a _; simp)
+
+omit [DecidableEq α] in
+/-- The lattice laws at the level of the *names* a client reads back: absorption both ways (every value). -/
+theorem C10_absorption {tbl : List α} (a b : Nat) :
+    decompose tbl (a ||| (a &&& b)) = decompose tbl a ∧ decompose tbl (a &&& (a ||| b)) = decompose tbl a := by
+  have e1 : a ||| (a &&& b) = a := by
+    apply Nat.eq_of_testBit_eq; intro i
+    simp only [Nat.testBit_or, Nat.testBit_and]; cases a.testBit i <;> simp
+  have e2 : a &&& (a ||| b) = a := by
+    apply Nat.eq_of_testBit_eq; intro i
+    simp only [Nat.testBit_or, Nat.testBit_and]; cases a.testBit i <;> simp
+  rw [e1, e2]; exact ⟨rfl, rfl⟩
+
+/-- `implies` is a partial order on sets: reflexive, and transitive for all values. -/
+theorem C10_implies_refl_trans (a b c : Nat) :
+    implies a a = true ∧ (implies a b = true → implies b c = true → implies a c = true) := by
+  simp only [implies, beq_iff_eq, Nat.and_self, true_and]
+  intro h1 h2
+  calc a &&& c = a &&& (b &&& c) := by rw [h2]
+    _ = (a &&& b) &&& c := by rw [Nat.and_assoc]
+    _ = b &&& c := by rw [h1]
+    _ = c := h2
+
 /-- Composed values stay inside the basis (so `C10_implies` applies to them). -/
 theorem C10_compose_bounded {tbl : List α} (h : WF tbl) (S : List α) (v : Nat) (hv : compose tbl S = some v) :
     v < 2 ^ tbl.length := by
